@@ -219,6 +219,9 @@ ERR_SNIPPETS = [
     # regression input (known_findings.d/C20.json, fixed): use-after-free in pp.c expandfunc made the result depend on the
     # allocator (index % 3 == 0: also run with -E; always given a memcheck row)
     "#define f(a) a\n#define t(a) a\nt(t(f)x)\n",
+    "int g(void) { return 2 *; }\n", "struct { int x; } v = { .y = 1 };\n",
+    # known finding (known_findings.d/C20.json): the same use-after-free in pp.c next() (index % 3 == 0: also run with -E)
+    "#define F(y) y\n#define ID(x) x\nID(F) 1\n",
 ]
 
 TOKRE = re.compile(r'\s+|//[^\n]*|/\*.*?\*/|"(?:\\.|[^"\\\n])*"|\'(?:\\.|[^\'\\\n])*\'|[A-Za-z_]\w*|\.?\d(?:[eEpP][+-]|[\w.])*'
@@ -832,7 +835,7 @@ def run(ctx):
                     rows = rows + vgrows[k % 3::3]
                 elif k % 3 == 0:
                     rows = rows + [vgrows[(k // 3) % len(vgrows)]]
-            elif not it["name"].startswith("own:") and (it["text"].startswith(b"#define f(a) a\n#define t(a) a")
+            elif not it["name"].startswith("own:") and (it["text"].startswith((b"#define f(a) a\n#define t(a) a", b"#define F(y) y\n#define ID(x) x"))
                                                         or k % (3 if it["name"].startswith(("corpus:", "err:")) else 6) == 0):
                 rows = rows + [vgrows[(k // 2) % len(vgrows)]]
             for eid, env in rows:
